@@ -501,3 +501,12 @@ end Agd.ConnLimit
 #print axioms Agd.Tie.TrC18.listener_close_releases_waiters
 #print axioms Agd.Tie.TrC18.accept_slot_accounting
 #print axioms Agd.Tie.TrC18.conn_released_once
+#print axioms Agd.Tie.TrC18.serveTCPConn_exit
+#print axioms Agd.Tie.TrC18.serveTCPConn_closes_once
+#print axioms Agd.Tie.TrC18.serveTCPConn_terminates
+#print axioms Agd.Tie.TrC18.serveTCPConn_semaphore
+#print axioms Agd.Tie.TrC18.acceptTCPMsg_acquire_then_submit
+#print axioms Agd.Tie.TrC18.acceptTCPMsg_task_releases_once
+#print axioms Agd.Tie.TrC18.serveTCPMessage_close_iff_unwritten
+#print axioms Agd.Tie.TrC18.acceptTCPConn_hands_over_once
+#print axioms Agd.Tie.TrC18.serveTCP_closes_listener_once
